@@ -34,6 +34,9 @@ class World(BaseWorld):
                 ops.append({'op': 'cost', 'kind': ro.choice(['big', 'spike', 'sign', 'small']), 'amp': ro.choice([1.0, 30.0, 1e3])})
         nsolve = ro.choice([1, 1, 1, 2])
         for s in range(nsolve):
+            if s > 0 and ro.random() < 0.5:
+                # the user refines / coarsens the grid and solves again in the same interpreter (same length, same diameters)
+                ops.append({'op': 'regrid', 'factor': ro.choice([0.5, 0.5, 2.0])})
             ops.append({'op': 'solve', 'guess': 'prev' if s > 0 and ro.random() < 0.7 else ro.choice(['zeros', 'zeros', 'noise']),
                         'user': simroot.gen_user_solver(ro, n_unknowns), 'via': ro.choice(['prism', 'prism', 'system'])})
             if self.do_c03 and ro.random() < 0.3:
@@ -73,6 +76,10 @@ class World(BaseWorld):
                 ctx.probe('dk_constructed')
             if len({(p['closure']['cls'], p['closure']['hc']) for p in spec['pairs'].values()}) > 1:
                 ctx.probe('mixed_closures')
+            if n > 1 and any((spec.get('bulk') or {}).values()):
+                ctx.probe('bulk_assignment')
+            if any(p.get('potential_sigma_factor') for p in spec['pairs'].values()):
+                ctx.probe('potential_own_sigma')
             trivial_sys = all(p['closure']['cls'] == 'PercusYevick' and p['potential']['cls'] == 'HardSphere' and
                               p['omega']['cls'] in ('SingleSite', 'NoIntra') for p in spec['pairs'].values())
             with simroot.installed(sr):
@@ -81,6 +88,17 @@ class World(BaseWorld):
                     ctx.log(step=step, op=op)
                     if op['op'] == 'cost':
                         self.op_cost(pp, spec, system, state, op, step, seed, grid, r_user, masks, ctx, mon)
+                        continue
+                    if op['op'] == 'regrid':
+                        spec = copy.deepcopy(spec)
+                        d = spec['domain']
+                        d['value'] = d['value'] * op['factor'] if d['via'] == 'dr' else d['value'] / op['factor']
+                        grid = sysgen.refgrid(spec)
+                        system = lib('build_system', sysgen.build_system, pp, spec)
+                        r_user = np.array(system.domain.r, dtype=float, copy=True)
+                        masks = oracles.core_masks(spec, r_user)
+                        state['P'] = None
+                        ctx.probe('regrid_same_length')
                         continue
                     guess = None
                     if op['guess'] == 'noise':
@@ -212,7 +230,7 @@ class World(BaseWorld):
 
     def expected_probes(self, tier):
         return ['last_eval_differs_from_root', 'success_with_large_residual', 'rank3', 'rank2', 'rank1', 'mixed_closures', 'nonpow2_length',
-                'dk_constructed', 'converged', 'guess_previous_solution', 'converged_krylov', 'converged_hybr', 'converged_lm',
+                'dk_constructed', 'converged', 'guess_previous_solution', 'regrid_same_length', 'bulk_assignment', 'potential_own_sigma', 'converged_krylov', 'converged_hybr', 'converged_lm',
                 'converged_anderson', 'converged_broyden1', 'converged_df-sane']
 
     def rule(self):
